@@ -495,6 +495,50 @@ def r3_path_param(c, facts):
         c.bad(R, 'parameter-name-not-prop.name', 'the parameter name no longer derives from prop.name, which is what the path key contains')
 
 
+def r13_path_key(c, facts):
+    """the key of a path item is rendered from the segments of the URI alone: Uri::pattern / pattern_with read `path`
+    and nothing else of the URI (query parameters are emitted as parameters of the operations, by prop_query_param).
+    A query string in the key puts `{name}` templates into a key that have no `in: path` parameter, and gives two
+    resources that differ by their query only two path items for one path."""
+    R = c.rule('C03.R13', 'PATH-KEY: the path-item key is rendered from the path segments of the URI only; its query parameters never reach the key')
+    n = 0
+    for q, l in sorted(facts.by_qname.items()):
+        if not (q.startswith('oal_compiler::spec::') and 'Uri' in q and q.rsplit('::', 1)[-1] in ('pattern', 'pattern_with')):
+            continue
+        fn = facts.normalised(l[0])
+        if not fn.mir:
+            continue
+        n += 1
+        read = set()
+        views = [fn] + [facts.closure_flat(g)[0] if hasattr(facts, 'closure_flat') else g for g in facts.closures_of(l[0])]
+        for g in views:
+            if not g.mir:
+                continue
+            for b, blk in g.blocks():
+                places = []
+                for st in blk['stmts']:
+                    if st['s'] == 'assign':
+                        rv = st['rv']
+                        if rv['r'] in ('ref', 'rawptr', 'discr', 'len'):
+                            places.append(rv['place'])
+                        places += [o for o in MF.operands_of_rvalue(rv) if 'l' in o]
+                t = blk['term']
+                if t['t'] in ('call', 'callfield'):
+                    places += [a for a in t['args'] if 'l' in a]
+                for pl in places:
+                    ty = g.mir['locals'][pl['l']]['ty']
+                    fp = MF.field_path(pl)
+                    if fp and re.search(r'\bUri\b', ty) and 'UriSegment' not in ty:
+                        read.add(fp[0])
+        inst = {'fn': q, 'fields_read': sorted(read)}
+        extra = sorted(read - {'path', '0'})
+        if extra:
+            c.bad(R, 'path-key-reads:%s:%s' % (q.rsplit('::', 1)[-1], ','.join(extra)), '%s reads %s of the URI: the rendered pattern is the key of the path item (Builder::all_paths), and everything in it beyond the path segments is a template or a distinction the paths object must not have' % (q, extra), **inst)
+        else:
+            c.ok(R, inst)
+    c.floor(R, 'renderers of the path-item key', n, 2)
+
+
 def r5_base_closed(c, facts):
     """the base document: paths are replaced wholesale (shared with C14.R1/R3); the kept component maps can still refer to
     the replaced schemas (genuine, recorded)"""
@@ -626,7 +670,10 @@ def run(c, facts):
     R11 = c.rule('C03.R11', 'WRITE-VERBATIM: the text that must parse back to the same document is the text on disk: the CLI writes what the serializer produced, unchanged, over a truncated file (shared with C13.R15, C13.R1)')
     c.shared(R11, _c13.r15_write_verbatim, 'C13.R15', facts)
     c.shared(R11, _c13.r1_sole_writer, 'C13.R1', facts)      # ... and nothing of an older, longer document stays behind it
+    import c02 as _c02
+    c.run(lambda c: _c02.r21_annotation_precedence(c, facts, rule='C03.R12'))      # an operationId given at the use of a function is the one emitted
     c.run(r5_base_closed, facts)
+    c.run(r13_path_key, facts)
     c.run(r6_operation_ids, facts)
     c.run(lambda c: c04.r5_status_conv(c, facts, rule='C03.R4'))
     c.run(r1_ref_close, facts)
